@@ -13,6 +13,7 @@ import time
 from collections import Counter
 
 import common
+import unicode_pool
 
 common.repo_on_path()
 
@@ -27,7 +28,7 @@ CYR_POOL = "\u0434\u0430\u0431\u0440\u043e\u043a1\u0435"            # encodable 
 ODD_POOL = "a\u2029b\u00a0\u001c"   # U+001C is rejected by check_valid (kept to exercise the filter); U+2029 and NBSP are admitted
 
 KINDS = ["len_eq_ngram", "single_len", "mixed", "nonascii", "sparse_alphabet", "dup_heavy", "odd", "long", "cp_empty",
-         "big", "mixed", "len_eq_ngram", "single_len", "nonascii"]
+         "big", "mixed", "len_eq_ngram", "single_len", "nonascii", "non_nfc", "non_nfc"]
 
 
 def _word(rng, pool, n):
@@ -84,6 +85,30 @@ def gen_training(rng, kind=None):
         else:
             pool, encoding = CYR_POOL[:rng.randint(3, 8)], rng.choice(["utf-8", "cp1251"])
         kind2 = rng.choice(["mixed", "len_eq_ngram", "single_len"])
+    elif kind == "non_nfc":
+        # text that is NOT in Unicode normal form C (harness/unicode_pool.py), utf-8 / utf-16: either random words over an alphabet in
+        # which a base letter, a combining mark and the precomposed letter (a singleton and its twin, Hangul jamo and the
+        # syllable, a CJK compatibility ideograph and the unified one) are separate symbols, or whole words in both spellings
+        # as different passwords with counts of their own
+        encoding = rng.choice(["utf-8", "utf-8", "utf-16", "utf-16-le"])
+        if rng.random() < 0.5:
+            pool = unicode_pool.char_pool(rng)
+            asize = 8
+            kind2 = rng.choice(["mixed", "len_eq_ngram", "single_len", "long"])
+        else:
+            asize = rng.choice([30, 30, 100, 12])
+            max_len = rng.choice([21, 21, 21, 12])
+            for p in unicode_pool.passwords(rng, rng.randint(2, 5)):
+                pws += [p] * rng.choice([1, 1, 2, 3, 5])
+            pws += [_word(rng, pool, rng.randint(ngram, ngram + 3)) for _ in range(rng.randint(0, 4))]
+            rng.shuffle(pws)
+            kind2 = "given"
+    elif kind == "blanks":
+        # pass phrases: blanks that str.strip() would remove (ASCII space, NO-BREAK SPACE, IDEOGRAPHIC SPACE) inside and at the end
+        # of n-grams; they are data like every other character (not in KINDS: drawn by the checks that name it)
+        pool, encoding = rng.choice(["a b", "ab " + unicode_pool.U("a0"), "a " + unicode_pool.U("3000") + "b1", "my dog"]), "utf-8"
+        asize = 8
+        kind2 = rng.choice(["mixed", "len_eq_ngram", "single_len", "long"])
     elif kind == "odd":
         # characters check_valid admits (NBSP, U+2029) or filters (U+001C), utf-8
         pool, encoding = ODD_POOL[:rng.choice([3, 4, 5])], "utf-8"
@@ -91,7 +116,9 @@ def gen_training(rng, kind=None):
         kind2 = rng.choice(["mixed", "len_eq_ngram", "single_len"])
     else:
         kind2 = kind
-    if kind2 == "len_eq_ngram":
+    if kind2 == "given":
+        pass
+    elif kind2 == "len_eq_ngram":
         # dominated by passwords whose length equals the n-gram size
         base = [_word(rng, pool, ngram) for _ in range(rng.randint(1, 4))]
         for _ in range(n):
@@ -255,6 +282,26 @@ def session_on(T, seconds=0.2):
 
 # ---------------------------------------------------------------- the real trainer, in-process
 
+def wide_codec(enc):
+    """utf-16 / utf-32 and their -le / -be forms: the line feed is not the byte 0x0A and the file has ONE byte order mark"""
+    import codecs
+    try:
+        return codecs.lookup(enc).name.startswith(("utf-16", "utf-32"))
+    except LookupError:
+        return False
+
+
+def training_bytes(passwords, counts, enc):
+    """the bytes of a training file: one line per password (with its count in front when counts are given)"""
+    if wide_codec(enc):
+        return "".join(("%d " % counts[i] if counts else "") + p + "\n" for i, p in enumerate(passwords)).encode(enc)
+    out = []
+    for i, p in enumerate(passwords):
+        pre = ("%d " % counts[i]).encode("ascii") if counts else b""
+        out.append(pre + p.encode(enc, errors="surrogateescape") + b"\n")
+    return b"".join(out)
+
+
 class Trained:
     """What lib_trainer/run_trainer.py does for OMEN, with the same objects in
     the same order (pass 1 alphabet, pass 2 n-grams, smoothing, keyspace, pass 3
@@ -275,9 +322,7 @@ class Trained:
         counts = cfg.get("counts")
         pc = bool(counts)
         with open(tf, "wb") as f:
-            for i, p in enumerate(cfg["passwords"]):
-                pre = ("%d " % counts[i]).encode("ascii") if pc else b""
-                f.write(pre + p.encode(enc, errors="surrogateescape") + b"\n")
+            f.write(training_bytes(cfg["passwords"], counts if pc else None, enc))
         # pass 1
         fi = TrainerFileInput(tf, enc, pc)
         ag = AlphabetGenerator(cfg["alphabet_size"], cfg["ngram"])
@@ -474,6 +519,7 @@ def coq_lines(pairs):
 # ---------------------------------------------------------------- candidates and the three-way oracle
 
 FOREIGN = ["Z", "\u00e9", " ", "\u2029", "\u044f", "0", "\u0085"]
+FOREIGN += [unicode_pool.U("301"), unicode_pool.U("212b")]       # a combining mark (composes with many letters), a singleton
 
 
 def walk(rng, T, n):
@@ -503,10 +549,18 @@ def candidates(rng, T, E, n_members=40, n_extra=6):
             out.append((s, why))
     for p in T.cfg["passwords"]:
         add(p, "training")
+    # the other spelling of a training password under the Unicode normal forms (composed <-> decomposed, singleton <-> its
+    # canonical equivalent): ANOTHER string, whose level all three must agree on as well
+    for p in list(dict.fromkeys(T.cfg["passwords"]))[:40]:
+        for t in unicode_pool.twins(p):
+            add(t, "normal-form-twin")
     members = [s for L in sorted(E) for s in E[L][0]]
     rng.shuffle(members)
     for s in members[:n_members]:
         add(s, "member")
+    for s in members[:n_members]:
+        for t in unicode_pool.twins(s)[:1]:
+            add(t, "normal-form-twin")
     for n in sorted({0, 1, ng - 1, ng, ng + 1, ml - 1, ml, ml + 1, ml + 2}):
         if n < 0:
             continue
